@@ -577,6 +577,54 @@ func (t *numTr) exec(stmts []ast.Stmt, st *state, fr *frame, next func(*state) t
 			return t.execBlock(&ast.BlockStmt{Lbrace: s.Pos(), List: []ast.Stmt{s.Init, &inner}}, st, fr, rest)
 		}
 		return run(st)
+	case *ast.TypeSwitchStmt:
+		// `switch err.(type) { case nil: … case values.OverflowError: … default: … }` over an error
+		// value: on every path of the symbolic execution the error is nil or a known error value, so
+		// the clause is selected statically (added for handleFix64Error; num2 builder)
+		if s.Init != nil {
+			t.fail(s, "type switch with an init statement")
+		}
+		es, ok := s.Assign.(*ast.ExprStmt)
+		if !ok {
+			t.fail(s, "type switch binding a variable")
+		}
+		ta, ok := es.X.(*ast.TypeAssertExpr)
+		if !ok || ta.Type != nil {
+			t.fail(s, "unsupported type switch subject")
+		}
+		return t.eval(ta.X, st, fr, func(v val, st *state) term {
+			var chosen, deflt *ast.CaseClause
+			for _, c := range s.Body.List {
+				cc := c.(*ast.CaseClause)
+				if cc.List == nil {
+					deflt = cc
+					continue
+				}
+				for _, e := range cc.List {
+					if id, ok := e.(*ast.Ident); ok && id.Name == "nil" {
+						if _, isNil := v.(vNil); isNil && chosen == nil {
+							chosen = cc
+						}
+						continue
+					}
+					if ev, isErr := v.(vErr); isErr && chosen == nil && t.errTypeString(fr.pkg, e) == ev.gotype {
+						chosen = cc
+					}
+				}
+			}
+			switch v.(type) {
+			case vNil, vErr:
+			default:
+				t.fail(s, "type switch over a value that is not a known error")
+			}
+			if chosen == nil {
+				chosen = deflt
+			}
+			if chosen == nil {
+				return rest(st)
+			}
+			return t.execBlock(&ast.BlockStmt{Lbrace: chosen.Pos(), List: chosen.Body}, st, fr, rest)
+		})
 	case *ast.ReturnStmt:
 		if len(s.Results) == 0 {
 			return fr.ret(vVoid{}, st)
